@@ -331,13 +331,16 @@ struct PtsCase {
   }
 };
 
+// uniform over size classes first, then over the types of that class
 unsigned pickType(Rng& rng, unsigned maxCls) {
-  for (int i = 0; i < 32; ++i) {
-    unsigned t = (unsigned)rng.below(NFACT);
-    if (classOf(FACT[t].sz) <= maxCls)
-      return t;
-  }
-  return 0;
+  unsigned cls = 7 + (unsigned)rng.below(std::max(maxCls, 7u) - 6);
+  unsigned cand[NFACT], n = 0;
+  for (unsigned t = 0; t < NFACT; ++t)
+    if (classOf(FACT[t].sz) == cls)
+      cand[n++] = t;
+  if (!n)
+    return 0;
+  return cand[rng.below(n)];
 }
 
 void syncModel(PtsCase& P) {
@@ -390,8 +393,14 @@ CaseResult serialCase(Harness& H, long k, Rng& rng, bool socket, bool moves, con
     P.checkAll("after-fill");
     // B: release a random subset (these go to the size-class free lists unless they are the last offset)
     unsigned nrel = 2 + (unsigned)rng.below(5);
-    for (unsigned i = 0; i < nrel && P.live.size() > 1; ++i)
-      P.destroy(rng.below(P.live.size()), pickT());
+    for (unsigned i = 0; i < nrel && P.live.size() > 1; ++i) {
+      size_t idx = rng.below(P.live.size());
+      if (rng.below(2)) // prefer a big one: its chunk will be split into change by later small requests
+        for (size_t j = 0; j < P.live.size(); ++j)
+          if (P.live[j]->cls > P.live[idx]->cls)
+            idx = j;
+      P.destroy(idx, pickT());
+    }
   }
   // C: random history
   int cur = pickT();
